@@ -69,6 +69,17 @@ Proof. intros idof ops. exact (pop_spec idof (run idof ops) (Inv_run idof ops)).
 Theorem C13_clear : forall idof ops, step idof (run idof ops) Clear = ([], OUnit).
 Proof. intros idof ops. exact (clear_spec idof (run idof ops) (Inv_run idof ops)). Qed.
 
+(* Construction DictObjectStore(objects) is a bulk update of a NEW empty map (a map value of its own: nothing
+   done to it later can show in any other store); constructed from the objects of another store it
+   equals that store - same entries, same iteration order. *)
+Theorem C13_construct : forall idof xs,
+  (forall i, lookup (fst (construct idof xs)) i = fst (g_update idof gempty xs) i) /\
+  snd (construct idof xs) = snd (g_update idof gempty xs) /\ Inv idof (fst (construct idof xs)).
+Proof. exact construct_refines. Qed.
+Theorem C13_construct_copy : forall idof ops,
+  construct idof (iter (run idof ops)) = (run idof ops, OUnit).
+Proof. intros idof ops. exact (construct_copy idof (run idof ops) (Inv_run idof ops)). Qed.
+
 (* Iteration yields each stored object exactly once, and len counts them. *)
 Theorem C13_iteration : forall idof ops,
   let s := run idof ops in
